@@ -57,6 +57,40 @@ impl<'c> Slice<'c> {
         Ok((core_data_src, external_data_srcs))
     }
 
+    /// Reads the records in this slice without resolving reference sequences or mates.
+    ///
+    /// This is sufficient for reading positional data, e.g., when indexing.
+    pub(crate) fn read_records<'ch: 'c>(
+        &self,
+        compression_header: &'ch CompressionHeader,
+        core_data_src: &'c [u8],
+        external_data_srcs: &'c [(block::ContentId, Cow<'c, [u8]>)],
+    ) -> io::Result<Vec<Record<'c>>> {
+        let core_data_reader = BitReader::new(core_data_src);
+
+        let mut external_data_readers = ExternalDataReaders::new();
+
+        for (block_content_id, src) in external_data_srcs {
+            external_data_readers.insert(*block_content_id, src);
+        }
+
+        let mut reader = Records::new(
+            compression_header,
+            core_data_reader,
+            external_data_readers,
+            self.header.reference_sequence_context(),
+            self.header.record_counter(),
+        );
+
+        let mut records = vec![Record::default(); self.header.record_count()];
+
+        for record in &mut records {
+            reader.read_record(record)?;
+        }
+
+        Ok(records)
+    }
+
     /// Reads and returns a list of raw records in this slice.
     ///
     /// # Examples
